@@ -25,6 +25,7 @@ impl SymbolTable {
 //@ASSUMES unit=c09_names.rs after="impl SymbolTable {" fn=new_context full=1
 //@ASSUMES unit=c09_names.rs after="impl SymbolTable {" fn=leave_context full=1
 //@ASSUMES unit=c09_names.rs after="impl SymbolTable {" fn=reset_to_global full=1
+//@ASSUMES unit=c09_names.rs after="impl SymbolTable {" fn=global_len full=1
 }
 pub struct Builtin { pub byte: u8 }
 pub uninterp spec fn builtin_of_name(name: Seq<char>) -> Option<u8>;
@@ -231,6 +232,7 @@ impl Compiler {
             // an expression leaves exactly ONE value (static height, see opcodes.rs)
             r is Ok ==> hstep(old(self).height@, final(self).height@, 1),
             sym_wf(final(self).symbols),   // also when the generator fails: compile_ast resets the table afterwards
+            sym_globals_kept(old(self).symbols, final(self).symbols),   // ... to the names the global scope had before: they are still there, in their slots
     { unimplemented!() }
     #[verifier::external_body]
     fn compile_statement(&mut self, stmt: &Stmt) -> (r: Result<(), Error>)
@@ -241,6 +243,7 @@ impl Compiler {
             // a statement leaves NOTHING behind
             r is Ok ==> hstep(old(self).height@, final(self).height@, 0),
             sym_wf(final(self).symbols),   // also when the generator fails: compile_ast resets the table afterwards
+            sym_globals_kept(old(self).symbols, final(self).symbols),   // ... to the names the global scope had before: they are still there, in their slots
     { unimplemented!() }
 //@ASSUMES unit=c02_blocks.rs fn=compile_block_statement full=1
 //@ASSUMES unit=c02_blocks.rs fn=compile_block_value full=1
